@@ -1,10 +1,106 @@
 import BFL.Driver.Proto
-/- Driver entries of this group (stub: no operation handled yet). -/
+import BFL.Model.Skip
+/-
+Driver entries for C13.
+
+  skip <predKind> <exo 0|1> <corrKind> <seed> <n> <k> op op …
+      predKind ∈ kf ukfa ukfg draw gpfkf draw2;  corrKind, seed, n, k are used by the C++ harness only
+      op = L:<name>:<0|1>   skip command at level L ∈ F (filter) P (prediction) C (correction) M (state model);
+                            `~` stands for the empty name
+         | p | c            predict / correct on the running belief
+  -> one token per op, preceded by the initial observation:
+      init/<flags>/<P>/<C>     r<1|0|T>/<flags>/<P>/<C>     p/<P>     c/<C>
+     flags = prediction, state model, exogenous model (`-` when absent);  P = label of what
+     predict does (id fx fxexo exo copy untouched), C = id | full.
+-/
 namespace BFL.DriverSkip
-open BFL BFL.Proto
+open BFL BFL.Proto BFL.Skip
+
+def parseKind (s : String) : Option PredKind :=
+  match s with
+  | "kf" => some .kf
+  | "ukfa" => some .ukfAdd
+  | "ukfg" => some .ukfGen
+  | "draw" => some .draw
+  | "gpfkf" => some .gpfKf
+  | "draw2" => some .draw        -- DrawParticles(state model, exogenous model): see `drawTwoArgConfig`
+  | _ => none
+
+def bit (b : Bool) : String := if b then "1" else "0"
+
+def flagsStr (st : SkipState) : String :=
+  bit st.pred ++ bit st.state ++ (match st.exo with
+                                  | none => "-"
+                                  | some e => bit e)
+
+def baseStr : Base → String
+  | .copy => "copy"
+  | .fxExo => "fxexo"
+  | .fx => "fx"
+  | .exoOnly => "exo"
+  | .untouched => "untouched"
+
+def obsStr : Obs → String
+  | .identity => "id"
+  | .step b => baseStr b
+
+def corrStr (st : SkipState) : String := if corrRuns st then "full" else "id"
+
+def outStr : Outcome → String
+  | .ret true => "r1"
+  | .ret false => "r0"
+  | .thrown => "rT"
+
+def parseCmd (t : String) : Option Cmd :=
+  match t.splitOn ":" with
+  | [l, nm, on] =>
+    let lvl : Option Level := match l with
+      | "F" => some .filter
+      | "P" => some .prediction
+      | "C" => some .correction
+      | "M" => some .stateModel
+      | _ => none
+    let b : Option Bool := match on with
+      | "0" => some false
+      | "1" => some true
+      | _ => none
+    match lvl, b with
+    | some lvl, some b => some ⟨lvl, parseName (if nm == "~" then "" else nm), b⟩
+    | _, _ => none
+  | _ => none
+
+def obsAll (k : PredKind) (st : SkipState) : String :=
+  flagsStr st ++ "/" ++ obsStr (predObs k st) ++ "/" ++ corrStr st
+
+def runOps (k : PredKind) : SkipState → List String → Option (List String)
+  | _, [] => some []
+  | st, t :: ts =>
+    if t == "p" then (runOps k st ts).map (("p/" ++ obsStr (predObs k st)) :: ·)
+    else if t == "c" then (runOps k st ts).map (("c/" ++ corrStr st) :: ·)
+    else match parseCmd t with
+      | none => none
+      | some c =>
+        let r := skipCmd st c
+        (runOps k r.st ts).map ((outStr r.out ++ "/" ++ obsAll k r.st) :: ·)
+
+def skipLine : R String := do
+  let kStr ← tok
+  let k := kStr
+  let exo ← bool
+  let _ ← tok; let _ ← tok; let _ ← tok; let _ ← tok
+  let ops ← get
+  set ([] : List String)
+  match parseKind k with
+  | none => failure
+  | some k =>
+    let st := if kStr == "draw2" then drawTwoArgConfig exo else SkipState.init exo
+    match runOps k st ops with
+    | none => failure
+    | some out => pure (join (("init/" ++ obsAll k st) :: out))
 
 def handle (op : String) (args : List String) : Option String :=
   match op with
+  | "skip" => some ((run skipLine args).getD "bad-args")
   | _ => none
 
 end BFL.DriverSkip
